@@ -191,5 +191,10 @@ def run(ctx):
     _memo(ctx, "R09.3", [p.get_class("wavephysics.balance.source_term.SourceTerm"), p.get_class("wavephysics.balance.balance.SourceTermBalance")], "source-term classes")
     _memo_pos(ctx, "R09.3")
     ctx.require_count("R09.3", 2)
+    # ---- R09.4 the wind direction estimate turns with the sea: the direction iteration must step along the shortest arc wherever
+    # north lies between the old and the new direction (shared rule, see c11.direction_step_rule)
+    from .c11 import direction_step_rule
+    direction_step_rule(ctx, "R09.4")
+    ctx.require_count("R09.4", 1)
     ctx.require_count("R09.1", 9)
     ctx.require_count("R09.2", 11)
